@@ -7,6 +7,7 @@ import (
 	"runtime/pprof"
 	"sort"
 	"strconv"
+	"strings"
 	"time"
 )
 
@@ -42,6 +43,39 @@ func main() {
 			os.Exit(2)
 		}
 		os.Exit(runCheck(spec, tier))
+	case "list":
+		// artsym list <Cnn> [--tier t]: scenario counts per label (no exploration)
+		tier := "quick"
+		for i := 3; i < len(os.Args); i++ {
+			if os.Args[i] == "--tier" && i+1 < len(os.Args) {
+				tier = os.Args[i+1]
+			}
+		}
+		spec := checkSpecs[os.Args[2]]
+		eng, err := LoadEngine(spec.GoArch)
+		if err != nil {
+			fmt.Fprintln(os.Stderr, err)
+			os.Exit(2)
+		}
+		c := &CheckRun{Spec: spec, Tier: tier, Eng: eng, Seed: 1}
+		scns := spec.Scenarios(c)
+		cnt := map[string]int{}
+		for _, s := range scns {
+			l := s.Label
+			if i := strings.Index(l, " m="); i > 0 {
+				l = l[:i]
+			}
+			cnt[l]++
+		}
+		var keys []string
+		for k := range cnt {
+			keys = append(keys, k)
+		}
+		sort.Strings(keys)
+		for _, k := range keys {
+			fmt.Printf("%6d %s\n", cnt[k], k)
+		}
+		fmt.Printf("%6d total\n", len(scns))
 	case "replay":
 		// artsym replay <file.json>: run a recorded counterexample natively against /repo's working tree
 		b, err := os.ReadFile(os.Args[2])
